@@ -90,6 +90,46 @@ check("C23", "E2 enum", "exploration",
       "Range contains/iteration in 5 forms for Int, Float, word-straddling Int, Char and fixed-width bounds; every list over {1,2,3,-1} as ArrayList, tuple, set, map, record, iterators, generator and closed channel x the 27 Std::Iterable operations with n in {-1,0,1,2,5}, 4 predicates, 4 probes; results must equal the same operation on the Go slice (multisets for hash collections) and undocumented edge cases must equal ArrayList's behaviour.",
       "Float-range iteration and halves on Int ranges are rejected by the checker and not probed")
 
+check("C02", "E2 enum", "exploration",
+      "bounded-exhaustive enumeration of declared type x scope x 38 narrowing forms x 12 invalidations x probe position x probe kind, observed through source-level typed probes",
+      "Every combination of 6 (thorough 8) declared types, 3 scopes, 38 narrowing forms (both polarities), 12 invalidation kinds, 4 probe positions and 3 probe kinds that the checker accepts is run; a typed probe `def probe_T(v: T)` prints the runtime class, which must be a member of T, a complementary probe catches wrong polarity, and a type-specialised operation after the narrowing must not panic.",
+      "typed probes of locals/parameters only (no compiler hook); the std-header return-type clause is C28's; instance variables, generators and 3-way unions are outside the space")
+
+check("C12", "E2 enum", "exploration",
+      "bounded-exhaustive metamorphic enumeration: every single application of 4 meaning-preserving edit kinds at every position of 132 (thorough 227) base programs",
+      "For each accepted base program (22 leaf method shapes x 5 caller shapes x top-level shapes, 1-4 methods) every insertion of an unused local / closure local before every statement, every consistent renaming of a local, every redundant parenthesisation of an expression node and every permutation of the method definitions is checked and run; verdict, stdout and uncaught error must equal the base program's.",
+      "single-expression closures only; nothing is inserted after the last statement of a body; no classes/modules")
+
+check("C13", "E2 enum", "exploration",
+      "bounded-exhaustive enumeration of closure terms (<=3 variables, nesting <=3, 6-8 statements) against a reference interpreter with boxed variables, each also under stack growth",
+      "All well-formed closure terms up to the size bound (6 049 programs quick, 81 255 thorough) over declare/write/read, closure creation in top-level code, methods, loops and closures, escape by return, list storage, passing to a method and tail call, are printed to Elk, run on the VM with the default stack and with a 64-slot initial stack plus deep-recursion hooks (growth while closures are live; in child processes) and compared line by line with harness/mini's reference interpreter.",
+      "closures without parameters; while/numeric-for loop variables and cross-thread closures are outside the space; a closure-free growth canary gates the growth mode (exhaustive:false if it fails)")
+
+check("C14", "E2 enum", "exploration",
+      "bounded-exhaustive enumeration of control-flow nestings (depth 3, thorough 4) x exit kinds and of short-circuit expressions against a reference interpreter",
+      "Every chain of up to 3 (thorough 4) nested constructs out of 24 variants (loops, labelled loops, do/catch/finally with the hole in each clause, defer, expression blocks, if) with each of 17 exit kinds (fallthrough, return, throw, break/continue with labels and values, guarded and unguarded) in the innermost hole (36 532 functions quick, 380 632 thorough) plus 4 800 &&/||/?? expressions with printing operands is run and its marker trace and result compared with harness/mini's reference interpreter.",
+      "until/do-while/numeric-for/for-in and catch patterns other than symbols are outside the space; signatures of the clause-exit family are coarse")
+
+check("C17", "E3 bfs", "model_checking",
+      "explicit-state breadth-first search over operation histories on the real hash tables (full-state canonical keys incl. tombstones) with a Go map as reference; Elk-level operation sequences",
+      "BFS over histories of set/delete/set_capacity/grow/copy/concat/clone (sets: add/remove/union/intersection) on the real HashMapOfValue, HashRecordOfValue, HashSetOfValue and the String-keyed native variants, keys chosen to collide at every capacity, to depth 5 (thorough 6), successor = replay on a fresh object + one operation, states merged on the full slot array; after every transition all observers (lookups, contains, 4 iteration APIs, ==/=~ with twins, + | &, clone) are compared with a Go map and the table invariants checked; plus every Elk-level operation sequence of length <=3 (thorough 4) on 7 literal flavours.",
+      "only String-keyed native instantiations; Float keys are C18's; mutation during iteration not explored")
+
+check("C24", "E3 bfs", "model_checking",
+      "explicit-state breadth-first search to closure over operation histories on the real list/tuple implementations with a Go slice as reference; Elk-level operation sequences",
+      "BFS to closure (length <=4/5, capacity <=8/10) over push/append/<</[]=/remove_at/remove/grow/+/*/slice/clone on ArrayListOfValue, ArrayTupleOfValue and the native String/Float variants; after every transition contents, [] for every index incl. huge and typed ones, 5 iteration APIs, inspect, contains, + with every peer implementation, ==/=~, *, every slice and clone independence are compared with a Go slice; out-of-range access must raise IndexError/OutOfRangeError; plus every Elk-level sequence of <=3 (thorough 4) operations on 5 literal flavours with 13 range slices.",
+      "capacity growth policy not modelled beyond capacity >= length; boxes, map, map_mut not covered")
+
+check("C30", "E2 enum", "exploration",
+      "bounded-exhaustive enumeration of patterns (depth 2, thorough depth-3 spines) x 45 scrutinee values x contexts x static typings against a reference matcher sourced from the compiler/checker",
+      "About 65 depth-1 patterns and 47 composite shapes filled from a child pool, in switch (alone, behind never-matching cases, with catch-all), if-match, match, var/val destructuring, under static type any and 12-16 precise types, all ordered pairs of 24 patterns and triples of 12, and 15 exhaustive switches: the selected case and every bound variable must equal the reference matcher's (rules cited from compiler pattern(), the checker and header docs); unspecified outcomes are only compared differentially.",
+      "guards do not exist in the grammar; identifier patterns naming existing variables, === / =~ patterns, catch/for patterns are outside the space")
+
+check("C31", "E2 enum", "exploration",
+      "bounded-exhaustive enumeration of macro bodies (1-2, thorough 1-3 statements over 12 forms) x caller scopes x arguments x call sites against a hand-expanded renamed program",
+      "Quote bodies binding/reading/assigning locals a and b hygienically or through !{unhygienic(...)}, callers defining none/a/b/both and printing them after the call, arguments a, a+b, 7, call site top-level or in a method, plus a probe reading a macro-defined name after the call: each program's behaviour must equal a Go model of the hand-expanded program with the macro's locals renamed apart (the model is validated by running the renamed expansion through Elk) and the printed expansion.",
+      "unquote_ident, pattern/type macros, nested macro calls are outside the space; three situations the statement leaves open are only counted")
+
 NOT_YET = "check not built yet in this round (planned, see DESIGN.md section 5)"
 NA = {}
 
